@@ -35,6 +35,8 @@ FormatFails(d, f) ==
   (IF f.outcome = "ok" /\ f.in_parse = "ok"
    THEN (IF ~TokensKept(f) /\ ~SortOn(f) THEN {V("C02", "tokens"), V("C03", "tokens")} ELSE {}) \cup
         (IF ~CensusKept(f) THEN {V("C03", "census")} \cup (IF SortOn(f) THEN {V("C12", "census")} ELSE {}) ELSE {}) \cup
+        (IF Has(f, "stmts") /\ Has(f.stmts, "recs") /\ f.stmts.sort_on /\ ~Has(f.stmts, "range")
+         THEN Blk!IgnoredVerbatimFails(f.stmts.recs) ELSE {}) \cup
         (IF Has(f, "stmts") /\ Has(f.stmts, "recs") /\ ~f.stmts.sort_on
          THEN Blk!IgnoreFails(f.stmts.recs) \cup
               (IF Has(f.stmts, "range")
